@@ -238,7 +238,19 @@ def run_template(name, repo_src, workdir, canary=True, rlimit=None):
                     if info and info.get('fn') and ('/*canary' in ltxt or info['fn'].startswith('canary:')):
                         failing.add(info['fn'])
             allf = [f['fn'] for f in cg.functions]
-            vacuous = [f for f in allf if f not in failing]
+            # second source: Verus' own per-function verdict.  A function is vacuous only if Verus says it
+            # verified although it contains `assert(false)`; a function that fails for any reason (assertion,
+            # resource limit) is not a proof of false.
+            can = analyse(cg, cres, name)
+            def vac(fn):
+                if fn in failing:
+                    return False
+                name2 = fn.replace('canary:', 'canary_')
+                hits = [st for k, st in can['stats'].items() if k == name2 or k.endswith('::' + name2)]
+                if not hits:
+                    return True          # neither a failing assertion nor a verdict: treat as vacuous (undecided)
+                return all(st['success'] for st in hits)
+            vacuous = [f for f in allf if vac(f)]
             out['canary'] = {'functions': len(allf), 'failed_as_required': len(allf) - len(vacuous), 'vacuous': vacuous,
                              'wall_s': cres['wall_s']}
             if vacuous:
